@@ -26,7 +26,7 @@ def own_paths(ck, f, var, start_ev, store_field, rule, what):
             if id(start_ev) not in ids:
                 continue
             evs = evs[ids.index(id(start_ev)) + 1:]
-        assumed = rules.path_assumes(path)
+        assumed = rules.path_assumes_after(path, start_ev) if start_ev is not None else rules.path_assumes(path)
         if assumed.get(var) is False:
             continue
         n += 1
